@@ -385,6 +385,7 @@ func (e *Engine) VerifyFunc(c *Contract) (res *FuncResult) {
 	}
 	ex.callCells = map[string]*Cell{}
 	ex.resCells = map[string]*Cell{}
+	scanned := map[*SpecFunc]bool{}
 	var scan func(e *SExpr)
 	scan = func(e *SExpr) {
 		if e == nil {
@@ -398,6 +399,13 @@ func (e *Engine) VerifyFunc(c *Contract) (res *FuncResult) {
 		if e.Op == "call" && e.Args[0].Op == "id" && e.Args[0].Name == "calls" && len(e.Args) == 2 && e.Args[1].Op == "str" {
 			if ex.callCells[e.Args[1].Name] == nil {
 				ex.callCells[e.Args[1].Name] = ex.newCell("$calls_"+e.Args[1].Name, types.Typ[types.Int], 0)
+			}
+		}
+		if e.Op == "call" && len(e.Args) > 0 && e.Args[0].Op == "id" {
+			// ghost counters used inside spec function macros are registered too
+			if sf := ex.eng.findSpecFunc(c.PkgPath, e.Args[0].Name); sf != nil && sf.Body != nil && !scanned[sf] {
+				scanned[sf] = true
+				scan(sf.Body)
 			}
 		}
 		for _, a := range e.Args {
